@@ -49,7 +49,7 @@
 (*   has, so those of earlier versions of the text linger.                                   *)
 EXTENDS Naturals, Sequences, FiniteSets, TLC
 
-CONSTANTS Urls, Texts, Cfgs, MaxMsgs, MaxInFlight, VersionGuard, RefreshFromMemory, ConfigRebuilds, ForgetIdentRecord, IdentsAccumulate, RebuildOnlyIfChanged, FirstOfBatch
+CONSTANTS Urls, Texts, Cfgs, MaxMsgs, MaxInFlight, VersionGuard, RefreshFromMemory, ConfigRebuilds, ForgetIdentRecord, IdentsAccumulate, RebuildOnlyIfChanged, FirstOfBatch, PullOnNull
 
 VARIABLES clientText,   \* newest text the client sent per url ("none": not open)
           docText,      \* server's document state per url ("none": no entry); with the version it came from
@@ -107,6 +107,10 @@ SendRefresh(u) == clientText[u] # "none" /\ Start([kind |-> "refresh", c |-> C0,
 \* the user changes a setting: the client stores it and announces it (the notification carries the settings)
 SendConfig(c) == (c # clientCfg \/ ~announced) /\ Start([kind |-> "config", c |-> c, changed |-> TRUE, todo |-> <<>>, u |-> "*", t |-> "?", ver |-> sent + 1, pc |-> "store"])
                  /\ clientCfg' = c /\ announced' = TRUE /\ UNCHANGED <<clientText, docText, published, disk, serverCfg, docCfg, idvars>>
+\* a client that serves its settings through workspace/configuration announces a change without carrying it
+\* (`settings: null`); PullOnNull = FALSE is the code before its repair: nothing to parse, the old settings stay
+SendConfigNull == ~announced /\ Start([kind |-> "config", c |-> "null", changed |-> TRUE, todo |-> <<>>, u |-> "*", t |-> "?", ver |-> sent + 1, pc |-> "store"])
+                  /\ announced' = TRUE /\ UNCHANGED <<clientText, docText, published, disk, clientCfg, serverCfg, docCfg, idvars>>
 \* the settings change on the client's side only
 ChangeSilently(c) == c # clientCfg /\ sent < MaxMsgs /\ sent' = sent + 1 /\ clientCfg' = c /\ announced' = FALSE
                      /\ UNCHANGED <<clientText, docText, published, disk, serverCfg, docCfg, idvars, hs, overlapped>>
@@ -162,7 +166,8 @@ StepClose(i) ==
   /\ dictIdents' = [dictIdents EXCEPT ![hs[i].u] = {}] /\ identRecord' = [identRecord EXCEPT ![hs[i].u] = "none"]
   /\ UNCHANGED <<clientText, disk, sent, overlapped, clientCfg, announced, serverCfg, docCfg>>
 \* didChangeConfiguration: store the announced settings ...
-StepStore(i) == /\ hs[i].pc = "store" /\ hs' = [hs EXCEPT ![i].pc = "rebuild", ![i].changed = (serverCfg # hs[i].c)] /\ serverCfg' = hs[i].c
+StepStore(i) == /\ hs[i].pc = "store" /\ hs' = [hs EXCEPT ![i].pc = "rebuild", ![i].changed = (serverCfg # hs[i].c)]
+                /\ serverCfg' = (IF hs[i].c = "null" THEN (IF PullOnNull THEN clientCfg ELSE serverCfg) ELSE hs[i].c)
                 /\ UNCHANGED <<clientText, docText, published, disk, sent, overlapped, clientCfg, announced, docCfg, idvars>>
 \* ... rebuild every document's linter under the lock and note the documents ...
 RECURSIVE SeqOf(_)
@@ -193,6 +198,7 @@ LNext == \/ \E u \in Urls, t \in Texts : SendOpen(u, t) \/ SendChange(u, t)
          \/ \E u \in Urls, t1, t2 \in Texts : SendChangeBatch(u, t1, t2)
          \/ \E u \in Urls : SendClose(u) \/ SendSave(u) \/ SendRefresh(u)
          \/ \E c \in Cfgs : SendConfig(c) \/ ChangeSilently(c)
+         \/ SendConfigNull
          \/ \E i \in DOMAIN hs : StepRead(i) \/ StepCfg(i) \/ StepLoad(i) \/ StepSet(i) \/ StepPub(i) \/ StepClose(i)
                                   \/ StepStore(i) \/ StepRebuild(i) \/ StepEach(i)
 
